@@ -29,7 +29,7 @@ class SinkReader:
             # This is an empty sink file
             return sink
         else:
-            sink_data = np.atleast_2d(np.loadtxt(sink_file, delimiter=",", skiprows=2))
+            sink_data = np.loadtxt(sink_file, delimiter=",", skiprows=2, ndmin=2)
             if sink_data.size == 0:
                 # Only the header lines: no sink has formed yet
                 return sink
